@@ -19,6 +19,8 @@ import glob, json, os, re, shutil, threading
 import vcommon as V
 
 RW_FAMS = ["pc_insect", "pc_prep", "ab_insect", "ab_prep", "cm_insect", "cm_prep"]
+# short TLC jobs on a loaded machine: C1 only and two GC threads start (much) faster than the default JVM set-up
+LIGHT_JVM = ["-XX:TieredStopAtLevel=1", "-XX:ParallelGCThreads=2"]
 INVS = ["SameValuePerVersion", "OneWinnerPerVersion", "VersionsMonotone", "StaleReadAborts", "Released",
         "Progress", "NoPanic"]
 
@@ -99,7 +101,7 @@ def judge(chk, work, good, bycase, stat, chunks, rounds=6):
         mine.sort(key=lambda s: 0 if s[0].get("case", "").startswith(("dw-", "rel-", "lostcommit-", "rw-", "rwgen-")) else 1)
         # every rejected case costs one more TLC run of its chunk: the quick tier stops after 2 per chunk (one replay
         # per class is reported anyway; what is left unchecked is listed as inconclusive)
-        boxes[tr] = V.fold_traces(work, "OneCopyObs", "OneCopyObs.cfg", mine, timeout=2400, chunks=chunks, max_rounds=rounds)
+        boxes[tr] = V.fold_traces(work, "OneCopyObs", "OneCopyObs.cfg", mine, timeout=2400, chunks=chunks, max_rounds=rounds, jvm=LIGHT_JVM)
     ts = [threading.Thread(target=one, args=(tr,)) for tr in sorted({s[0].get("tr") for s in good})]
     [t.start() for t in ts]
     [t.join() for t in ts]
@@ -182,7 +184,7 @@ def start_mlevel(chk, specsrc, good):
                 f.write(json.dumps(dict(s[0], len=len(s))) + "\n")
                 for ln in s[1:]:
                     f.write(json.dumps(ln) + "\n")
-        res = V.tlc(d, "TwoPCTrace", cfg="TwoPCTrace.cfg", workers=2, timeout=2400, deadlock=False)
+        res = V.tlc(d, "TwoPCTrace", cfg="TwoPCTrace.cfg", workers=2, timeout=2400, deadlock=False, jvm=LIGHT_JVM)
         with mlock:
             chk.tlc_jobs.append(res.summary("TwoPCTrace n=%d writers=%s (%d cases)" % (n, list(writers), len(gsegs))))
             chk.states += res.distinct; chk.transitions += res.generated
@@ -242,8 +244,7 @@ def run(chk):
         d = os.path.join(chk.tmp, "pre-" + key)
         V.copy_specs(specsrc, d)
         os.makedirs(os.path.join(d, "b"), exist_ok=True)
-        # short jobs on a loaded machine: C1 only and two GC threads start (much) faster than the default JVM set-up
-        pre[key] = (V.tlc(d, module, cfg=cfg + ".cfg", deadlock=deadlock, jvm=["-XX:TieredStopAtLevel=1", "-XX:ParallelGCThreads=2"], **kw), d)
+        pre[key] = (V.tlc(d, module, cfg=cfg + ".cfg", deadlock=deadlock, jvm=LIGHT_JVM, **kw), d)
     pths = [threading.Thread(target=prejob, args=("dw", "DWReplay", "DWReplayNoFilter"), kwargs=dict(workers=1, timeout=900)),
             threading.Thread(target=prejob, args=("rel", "MCTwoPC", "MC3PinnedRPC"), kwargs=dict(workers=2, timeout=900)),
             threading.Thread(target=prejob, args=("lc", "LCReplay", "LCReplayNoRetry"), kwargs=dict(workers=1, timeout=900))]
@@ -252,12 +253,22 @@ def run(chk):
     pths += [threading.Thread(target=prejob, args=("rwbad", "RWReplay", "RWReplayWorking"), kwargs=dict(workers=1, timeout=900, deadlock=True)),
              threading.Thread(target=prejob, args=("rwgood", "RWReplay", "RWReplayCommitted"), kwargs=dict(workers=1, timeout=900, deadlock=True))]
     fams = [RW_FAMS[seed % 2], RW_FAMS[4 + seed % 2]] if quick else RW_FAMS
-    for fam in fams:
-        pths.append(threading.Thread(target=prejob, args=("rwgen_" + fam, "RWGen", "RWGen_" + fam), kwargs=dict(workers=2, timeout=1500)))
+    # the searches are the longest jobs of this phase: the driver starts on the other cases meanwhile
+    gths = [threading.Thread(target=prejob, args=("rwgen_" + fam, "RWGen", "RWGen_" + fam), kwargs=dict(workers=2, timeout=1500))
+            for fam in fams]
+    drvbox = {}
+
+    def build():
+        try:
+            drvbox["drv"] = V.build_driver("c11drv", chk.bindir)
+        except Exception as e:     # noqa
+            drvbox["err"] = e
+    bth = threading.Thread(target=build)
+    bth.start()
     for cfg, n, writers, num in sims:
         pths.append(threading.Thread(target=prejob, args=(cfg, "MCTwoPC", cfg), kwargs=dict(
             workers=2, timeout=1200, simulate="file=b/t,num=%d" % max(1, num // 2), depth=160, seed=seed * 1000 + n)))
-    [t.start() for t in pths]
+    [t.start() for t in pths + gths]
     [t.join() for t in pths]
     res = pre["dw"][0]
     chk.tlc_jobs.append(res.summary("DWReplay without the filter (expected: OneWinnerPerVersion violated on the model)"))
@@ -294,16 +305,6 @@ def run(chk):
             rw_scripts.append(("rw-" + os.path.basename(fn)[3:-7].replace("_", ""), steps))
     if len(rw_scripts) < len(RW_FAMS):
         chk.inconclusive.append("RWReplay exported %d of %d schedules" % (len(rw_scripts), len(RW_FAMS)))
-    for fam in fams:
-        res = pre["rwgen_" + fam][0]
-        chk.tlc_jobs.append(res.summary("RWGen %s: search on the variant (expected: a lagging proposer installs an uncommitted "
-                                        "write, SameValuePerVersion violated on the model)" % fam))
-        chk.states += res.distinct; chk.transitions += res.generated
-        acts = acts_of(res.out)
-        if res.violation and "GenInv" in res.violation and len(acts) > 8:
-            rw_scripts.append(("rwgen-" + fam.replace("_", ""), acts))
-        else:
-            chk.inconclusive.append("vacuity: RWGen %s found no behaviour of the wanted kind: %s" % (fam, res.error or res.violation or "none"))
     scripts = []
     for cfg, n, writers, num in sims:
         res, d = pre[cfg]
@@ -347,10 +348,13 @@ def run(chk):
                                   "lag": writers[i % len(writers)] if i % 2 == 0 else 0})
 
     # ------------------------------------------------------------------ 3. run them
-    drv = V.build_driver("c11drv", chk.bindir)
+    bth.join()
+    if "drv" not in drvbox:
+        raise drvbox.get("err") or V.Inconclusive("c11drv was not built")
+    drv = drvbox["drv"]
     half = (len(cases) + 1) // 2
     parts = [cases] if len(cases) < 8 else [cases[:half], cases[half:]]
-    results = [None] * len(parts)
+    results = [None] * (len(parts) + 1)
 
     def runpart(i):
         try:
@@ -359,6 +363,26 @@ def run(chk):
             results[i] = e
     ths = [threading.Thread(target=runpart, args=(i,)) for i in range(len(parts))]
     [t.start() for t in ths]
+    # the generated schedules of the reject-carries-working family: a third driver run as soon as the searches are done
+    [t.join() for t in gths]
+    gen_cases = []
+    for fam in fams:
+        res = pre["rwgen_" + fam][0]
+        chk.tlc_jobs.append(res.summary("RWGen %s: search on the variant (expected: a lagging proposer installs an uncommitted "
+                                        "write, SameValuePerVersion violated on the model)" % fam))
+        chk.states += res.distinct; chk.transitions += res.generated
+        acts = acts_of(res.out)
+        if res.violation and "GenInv" in res.violation and len(acts) > 8:
+            for tr in ("rpc", "local"):
+                gen_cases.append(script_case("rwgen-" + fam.replace("_", ""), 3, [1, 2], acts, tr, seed))
+        else:
+            chk.inconclusive.append("vacuity: RWGen %s found no behaviour of the wanted kind: %s" % (fam, res.error or res.violation or "none"))
+    parts.append(gen_cases)
+    cases += gen_cases
+    if gen_cases:
+        runpart(len(parts) - 1)
+    else:
+        results[len(parts) - 1] = ([], [])
     [t.join() for t in ths]
     lines, statuses = [], []
     for r in results:
